@@ -759,6 +759,8 @@ def init_obligations(repo):
     c = idx("self.store[base_uri] = referrer")
     rec("validators:RefResolver.__init__/T/store-seeding", 0 <= a < b < c,
         "the store is seeded with every registered metaschema, then the caller's store (through the normalising update), then base_uri -> referrer (last, so it wins): positions %s" % ((a, b, c),))
+    recs[-1]["rt_search"] = [("pyvc.rt_ref", {"cmd": "search"}, "ref"),
+                             ("pyvc.rt_hist", {"cmd": "search", "maxlen": 2, "configs": [[True, "default"], [False, "default"]]}, "hist")]
     rec("validators:RefResolver.__init__/T/stack", "self._scopes_stack = [base_uri]" in stmts, "the scope stack starts as [base_uri]")
     rec("validators:RefResolver.__init__/T/handlers", "self.handlers = dict(handlers)" in stmts, "handlers are copied")
     fs = _ast.unparse(repo.units["validators:RefResolver.from_schema"].node)
